@@ -81,6 +81,15 @@ for s in shapes(3, dims):
       add("BlockPartitioner.__init__", [list(s), bs], "zero-size block")
     if sum(int(np.prod(p.shape)) for p in parts) != n:
       add("BlockPartitioner.partition", [list(s), bs], "blocks do not cover the tensor")
+    # k-th block = k-th box in itertools.product order (last axis fastest)
+    import itertools as _it
+    cuts = [list(range(0, d, bs)) if 0 < bs < d else [0] for d in s]
+    xn = np.asarray(x)
+    for k, starts in enumerate(_it.product(*cuts)):
+      box = xn[tuple(slice(a, a + (bs if 0 < bs < d else d)) for a, d in zip(starts, s))]
+      if k >= len(parts) or parts[k].shape != box.shape or not np.array_equal(np.asarray(parts[k]), box):
+        add("BlockPartitioner.partition", [list(s), bs], f"block {k} is not the box starting at {list(starts)} (product order)")
+        break
     for pt in ds.PreconditionerType:
       for cr in (0, 1):
         pre = ds.Preconditioner(x, bs, 4096, False, pt, cr)
